@@ -36,6 +36,9 @@ type Stream struct {
 	holdEOF  bool // keep Read blocked after Close until Release()
 	released bool
 	failW    bool
+	holdW    bool // a Write blocks (the link hangs) until ReleaseWrites
+	wWaiting bool
+	wFail    bool
 	Written  []*protocol.Frame // frames written by the implementation
 	onWrite  func(f *protocol.Frame)
 }
@@ -67,6 +70,17 @@ func (s *Stream) Read(p []byte) (int, error) {
 
 func (s *Stream) Write(p []byte) (int, error) {
 	s.mu.Lock()
+	if s.holdW {
+		s.wWaiting = true
+		for s.holdW {
+			s.cond.Wait()
+		}
+		s.wWaiting = false
+		if s.wFail {
+			s.mu.Unlock()
+			return 0, ErrWrite
+		}
+	}
 	if s.closed {
 		s.mu.Unlock()
 		return 0, io.ErrClosedPipe
@@ -115,6 +129,30 @@ func (s *Stream) FailWrites() {
 	s.mu.Unlock()
 }
 
+// HoldWrites makes the next Write hang until ReleaseWrites.
+func (s *Stream) HoldWrites() {
+	s.mu.Lock()
+	s.holdW = true
+	s.mu.Unlock()
+}
+
+// ReleaseWrites lets a hanging Write return: with an error if fail is set or
+// the stream has been closed meanwhile, successfully otherwise.
+func (s *Stream) ReleaseWrites(fail bool) {
+	s.mu.Lock()
+	s.holdW = false
+	s.wFail = fail
+	s.cond.Broadcast()
+	s.mu.Unlock()
+}
+
+// WriteWaiting reports whether a Write is currently hanging.
+func (s *Stream) WriteWaiting() bool {
+	s.mu.Lock()
+	defer s.mu.Unlock()
+	return s.wWaiting
+}
+
 // Release lets a Read that is held after Close return its error.
 func (s *Stream) Release() {
 	s.mu.Lock()
@@ -156,7 +194,10 @@ type Conn struct {
 	Dialer   bool
 	S        *Stream
 	mu       sync.Mutex
+	cond     *sync.Cond
 	closed   bool
+	holdC    bool // Close blocks (the transport is slow to shut down) until ReleaseClose
+	cWaiting bool
 }
 
 // NewConn builds a connection whose remote end identifies as remote.
@@ -164,6 +205,7 @@ type Conn struct {
 // when the connection is closed stays blocked until S.Release().
 func NewConn(tag int, remote identity.AgentID, dialer, holdEOF bool) *Conn {
 	c := &Conn{Tag: tag, RemoteID: remote, Dialer: dialer, S: newStream()}
+	c.cond = sync.NewCond(&c.mu)
 	c.S.holdEOF = holdEOF
 	hello := &protocol.PeerHello{Version: protocol.ProtocolVersion, AgentID: remote, Timestamp: 1, Capabilities: nil, DisplayName: "h"}
 	if dialer {
@@ -185,9 +227,44 @@ func (c *Conn) OpenStream(ctx context.Context) (transport.Stream, error)   { ret
 func (c *Conn) AcceptStream(ctx context.Context) (transport.Stream, error) { return c.S, nil }
 func (c *Conn) Close() error {
 	c.mu.Lock()
+	if c.holdC {
+		c.cWaiting = true
+		for c.holdC {
+			c.cond.Wait()
+		}
+		c.cWaiting = false
+	}
 	c.closed = true
 	c.mu.Unlock()
 	return c.S.Close()
+}
+
+// HoldClose makes Close block until ReleaseClose.
+func (c *Conn) HoldClose() {
+	c.mu.Lock()
+	c.holdC = true
+	c.mu.Unlock()
+}
+
+func (c *Conn) ReleaseClose() {
+	c.mu.Lock()
+	c.holdC = false
+	c.cond.Broadcast()
+	c.mu.Unlock()
+}
+
+// CloseWaiting reports whether a Close call is currently blocked.
+func (c *Conn) CloseWaiting() bool {
+	c.mu.Lock()
+	defer c.mu.Unlock()
+	return c.cWaiting
+}
+
+// CloseHeld reports whether Close would block.
+func (c *Conn) CloseHeld() bool {
+	c.mu.Lock()
+	defer c.mu.Unlock()
+	return c.holdC
 }
 func (c *Conn) IsClosed() bool {
 	c.mu.Lock()
